@@ -56,7 +56,7 @@ def gen_params(rng, tier):
         sb[i][0][c] = new
         desc = "cell %d of row %d: %r -> %r" % (c, i, old, new)
     else:
-        pr = gen.perturb_spec(rng, spec)
+        pr = gen.perturb_spec(rng, spec, allow_qname=True)
         if pr is not None:
             spec2, desc, _ = pr
             if rng.random() < 0.5:
@@ -76,9 +76,16 @@ def build(p):
     expect.append(("pycheck", "c09_eq_iff_content", "a", "b", i0, p["desc"], True, p["desc"] == "same"))
     ops.append(("eq", "a", "a", 0, 0))
     expect.append(("reply", len(ops) - 1, True, "an aggregator does not equal itself"))
+    # ... under every tolerance setting, also with only one of the two tolerances positive
+    for rel, ab in ((TOL, 0), (0, TOL), (TOL, TOL)):
+        ops.append(("eq", "a", "a", rel, ab))
+        expect.append(("reply", len(ops) - 1, True, "an aggregator does not equal itself at relative tolerance %r, absolute tolerance %r" % (rel, ab)))
     ops.append(("copy", "ac", "a"))
     ops.append(("eq", "a", "ac", 0, 0))
     expect.append(("reply", len(ops) - 1, True, "an aggregator does not equal its copy()"))
+    for rel, ab in ((TOL, 0), (0, TOL)):
+        ops.append(("eq", "a", "ac", rel, ab))
+        expect.append(("reply", len(ops) - 1, True, "an aggregator does not equal its copy() at relative tolerance %r, absolute tolerance %r" % (rel, ab)))
     ops.append(("eq", "ac", "a", 0, 0))
     expect.append(("reply", len(ops) - 1, True, "copy() does not equal the original"))
     ops += [("roundtrip", "r1", "a"), ("roundtrip", "r2", "a"), ("eq", "r1", "r2", 0, 0)]
@@ -164,11 +171,46 @@ def wild_reload_check(p):
     return msgs
 
 
+def string_name_check(p):
+    """Implementation-level: the case's tree with every quantity written as a string expression under an explicit name
+    (named("pt", "c0")), unfilled.  Two such trees are equal when all names agree and unequal — in both orders, with != the
+    negation — when one quantity (not that of a Select, whose == ignores it) carries another name."""
+    import copy
+    import random
+
+    spec = copy.deepcopy(p["spec"])
+    nodes = [n for n in gen.walk(spec) if "q" in n]
+    if not nodes:
+        return []
+    rng = random.Random(p.get("wild_seed", 0))
+    for n in nodes:
+        n["q"] = [n["q"][0], rng.choice(["pt", "eta", "phi"]), rng.choice(["namedstr", "cachednamedstr"])]
+    cands = [i for i, n in enumerate(nodes) if n["k"] != "Select"]
+    try:
+        a, b = gen.build(spec), gen.build(copy.deepcopy(spec))
+    except Exception:  # noqa: BLE001
+        return []
+    msgs = []
+    if not (a == b) or (a != b):
+        msgs.append("two trees built alike from named string expressions are unequal")
+    if cands:
+        spec2 = copy.deepcopy(spec)
+        n2 = [n for n in gen.walk(spec2) if "q" in n][rng.choice(cands)]
+        old = n2["q"][1]
+        n2["q"][1] = {"pt": "eta", "eta": "phi", "phi": "pt"}[old]
+        c = gen.build(spec2)
+        if (a == c) or (c == a) or not (a != c):
+            msgs.append("a %s whose string quantity %r is named %r compares equal to one where it is named %r (a == c: %r, c == a: %r, a != c: %r)"
+                        % (n2["k"], "c%d" % n2["q"][0], old, n2["q"][1], a == c, c == a, a != c))
+    return msgs
+
+
 def oracle(case, py, replies):
     out = common.eval_expect(case, py, replies)
     from runner import dec
 
-    out += wild_reload_check(dec(case["params"]))
+    p = dec(case["params"])
+    out += wild_reload_check(p) + string_name_check(p)
     return out
 
 
